@@ -505,3 +505,25 @@ def run(pm, ctx):
     run_decisions(pm, ctx, 'C04-RD', OWN['C04'])
     from .. import exprdrift
     exprdrift.run(pm, ctx, 'C04-RE', OWN['C04'])
+
+    # the decoder's tag table and the encoder's class table spell the subtype tags alike:
+    # both take the tag of get_all_subtypes_with_tags() as it is
+    gm = pm.func('stone.backends.python_types.PythonTypesBackend.'
+                 '_generate_enumerated_subtypes_tag_mapping')
+    loops = [l for l in own_nodes(gm.node) if isinstance(l, ast.For) and
+             isinstance(l.iter, ast.Call) and call_name(l.iter) == 'get_all_subtypes_with_tags'
+             and isinstance(l.target, ast.Tuple) and isinstance(l.target.elts[0], ast.Name)]
+    bare = []
+    for l in loops:
+        t = l.target.elts[0].id
+        fmts = [c for c in own_nodes(l) if isinstance(c, ast.Call) and
+                isinstance(c.func, ast.Attribute) and c.func.attr == 'format']
+        uses = [x for c in fmts for a in c.args for x in ast.walk(a)
+                if isinstance(x, ast.Name) and x.id == t]
+        bare.append(bool(uses) and all(any(a is u for c in fmts for a in c.args) for u in uses))
+    ctx.check('C04-R4', len(loops) == 2 and all(bare),
+              'both subtype tables (_tag_to_subtype_, _pytype_to_tag_and_subtype_) are emitted from '
+              'get_all_subtypes_with_tags() with the tag unchanged', gm.loc,
+              msg='the two subtype tables no longer spell the tags alike (%s): the encoder emits a '
+                  '.tag the decoder does not know' % bare,
+              key='C04-R4|%s|tag-spelling' % gm.qualname)
